@@ -1,1 +1,281 @@
-//! C24: not implemented yet.
+//! C24 — NTP packets survive a decode/encode round trip.
+//!
+//! Engine E-IN over the shared datagram grammar of `c23.rs` (same staged plan, same sweep),
+//! decoded without keys. For every input x the decoder accepts (`Ok`):
+//!
+//! ```text
+//! P0 = dec(x)            B1 = enc(P0)   must succeed            (no Err, no panic)
+//! P1 = dec(B1)           must succeed   (the encoder's output is decodable)
+//! B2 = enc(P1)           must succeed
+//! P2 = dec(B2)           must succeed and P2 == P1              (packet stable after one normalising round)
+//! B3 = enc(P2)           must succeed and B3 == B2              (bytes stable)
+//! ```
+//!
+//! The oracle is the statement itself; nothing is assumed about *what* the normal form is
+//! (how many inputs were changed by the normalising round is only counted).
+use std::collections::HashSet;
+use std::io::Cursor;
+
+use super::c23::{self, Case, Env, Mutation, Pat, Plan};
+use super::common::{self, Ctx};
+use crate::packet::{NoCipher, NtpPacket};
+
+/// Large enough for any re-encoding of a <= 12 KiB input (every field grows by < 32 bytes).
+const BUF: usize = 32 * 1024;
+
+fn enc(p: &NtpPacket<'_>, buf: &mut [u8]) -> Result<Result<usize, String>, String> {
+    common::catch(|| {
+        let mut c = Cursor::new(&mut buf[..]);
+        match p.serialize(&mut c, &NoCipher, None) {
+            Ok(()) => Ok(c.position() as usize),
+            Err(e) => Err(format!("{e}")),
+        }
+    })
+}
+
+#[derive(Debug, Clone, PartialEq, Eq)]
+enum Rt {
+    Rejected,
+    /// accepted and stable; `normalised` = the first re-encoding differs from the input
+    Stable { normalised: bool, version: u8, fields: usize, mac: bool, normal_form: u64 },
+    Violation { class: String, what: String },
+}
+
+fn panic_site(msg: &str) -> &'static str {
+    if msg.contains("v5/extension_fields.rs") {
+        "-refid-request"
+    } else {
+        ""
+    }
+}
+
+/// The complete round-trip oracle for one input.
+fn round_trip(x: &[u8], b1: &mut [u8], b2: &mut [u8], b3: &mut [u8]) -> Rt {
+    let v = |class: &str, what: String| Rt::Violation { class: class.to_string(), what };
+    let p0 = match common::catch(|| NtpPacket::deserialize(x, &NoCipher)) {
+        Ok(Ok((p, _))) => p,
+        Ok(Err(_)) => return Rt::Rejected,
+        // totality is C23's business; here the input simply is not "accepted"
+        Err(_) => return Rt::Rejected,
+    };
+    let n1 = match enc(&p0, b1) {
+        Ok(Ok(n)) => n,
+        Ok(Err(e)) => return v("C24:encode-error", format!("accepted packet cannot be encoded: {e}; packet {p0:?}")),
+        Err(e) => {
+            return v(
+                &format!("C24:encode-panic{}", panic_site(&e)),
+                format!("encoding an accepted packet panicked: {e}; packet {p0:?}"),
+            );
+        }
+    };
+    let (a, e, u, mac) = crate::packet::verif_probe::gh::counts(&p0);
+    let version = (x[0] >> 3) & 7;
+    let p1 = match common::catch(|| NtpPacket::deserialize(&b1[..n1], &NoCipher)) {
+        Ok(Ok((p, _))) => p,
+        Ok(Err(e)) => return v("C24:reencoded-rejected", format!("dec(enc(P0)) fails with {e}; P0 = {p0:?}; B1 = {}", common::hex(&b1[..n1]))),
+        Err(e) => return v("C24:redecode-panic", format!("dec(enc(P0)) panicked: {e}; B1 = {}", common::hex(&b1[..n1]))),
+    };
+    let n2 = match enc(&p1, b2) {
+        Ok(Ok(n)) => n,
+        Ok(Err(e)) => return v("C24:encode-error-round2", format!("enc(P1) fails: {e}; P1 = {p1:?}")),
+        Err(e) => return v(&format!("C24:encode-panic-round2{}", panic_site(&e)), format!("enc(P1) panicked: {e}; P1 = {p1:?}")),
+    };
+    let p2 = match common::catch(|| NtpPacket::deserialize(&b2[..n2], &NoCipher)) {
+        Ok(Ok((p, _))) => p,
+        Ok(Err(e)) => return v("C24:reencoded-rejected-round2", format!("dec(B2) fails with {e}; B2 = {}", common::hex(&b2[..n2]))),
+        Err(e) => return v("C24:redecode-panic", format!("dec(B2) panicked: {e}")),
+    };
+    if p2 != p1 {
+        return v("C24:unstable-packet", format!("dec(B2) != P1: P1 = {p1:?}; dec(B2) = {p2:?}"));
+    }
+    let n3 = match enc(&p2, b3) {
+        Ok(Ok(n)) => n,
+        Ok(Err(e)) => return v("C24:encode-error-round3", format!("enc(dec(B2)) fails: {e}")),
+        Err(e) => return v(&format!("C24:encode-panic-round3{}", panic_site(&e)), format!("enc(dec(B2)) panicked: {e}")),
+    };
+    if b3[..n3] != b2[..n2] {
+        return v(
+            "C24:unstable-bytes",
+            format!("enc(dec(B2)) != B2: B2 = {}; B3 = {}", common::hex(&b2[..n2]), common::hex(&b3[..n3])),
+        );
+    }
+    Rt::Stable { normalised: b1[..n1] != *x, version, fields: a + e + u, mac, normal_form: n2 as u64 }
+}
+
+struct Local<'a> {
+    ctx: &'a Ctx,
+    b1: Vec<u8>,
+    b2: Vec<u8>,
+    b3: Vec<u8>,
+    evals: u64,
+    calls: u64,
+    bases: u64,
+    rejected: u64,
+    accepted: [u64; 8],
+    normalised: u64,
+    with_mac: u64,
+    fields: [u64; 5],
+    distinct: HashSet<u64>,
+}
+
+impl<'a> Local<'a> {
+    fn new(ctx: &'a Ctx) -> Self {
+        Local {
+            ctx,
+            b1: vec![0; BUF],
+            b2: vec![0; BUF],
+            b3: vec![0; BUF],
+            evals: 0,
+            calls: 0,
+            bases: 0,
+            rejected: 0,
+            accepted: [0; 8],
+            normalised: 0,
+            with_mac: 0,
+            fields: [0; 5],
+            distinct: HashSet::new(),
+        }
+    }
+}
+
+impl Drop for Local<'_> {
+    fn drop(&mut self) {
+        let c = self.ctx;
+        c.add("evaluations", self.evals);
+        c.add("transitions", self.calls);
+        c.add("base_datagrams", self.bases);
+        c.add("rejected_inputs", self.rejected);
+        for v in [3usize, 4, 5] {
+            c.add(&format!("accepted_v{v}"), self.accepted[v]);
+        }
+        c.add("accepted_changed_by_normalising_round", self.normalised);
+        c.add("accepted_with_mac", self.with_mac);
+        for (i, n) in self.fields.iter().enumerate() {
+            c.add(&format!("accepted_with_{i}{}_fields", if i == 4 { "+" } else { "" }), *n);
+        }
+        c.distinct_many(self.distinct.drain());
+    }
+}
+
+fn run_case(found: &c23::Findings, st: &mut Local<'_>, stage: usize, index: u64, case: &Case, pats: &[Pat]) {
+    st.bases += 1;
+    let base_key = (stage as u64) << 48 | index;
+    let Local { b1, b2, b3, .. } = st;
+    let (mut evals, mut calls, mut rejected, mut normalised_n, mut with_mac) = (0u64, 0u64, 0u64, 0u64, 0u64);
+    let mut accepted = [0u64; 8];
+    let mut fields_n = [0u64; 5];
+    let mut distinct: Vec<u64> = Vec::new();
+    let mut body = |bytes: &[u8], _m: Mutation| {
+        evals += 1;
+        match round_trip(bytes, b1, b2, b3) {
+            Rt::Rejected => {
+                rejected += 1;
+                calls += 1;
+            }
+            Rt::Stable { normalised, version, fields, mac, normal_form } => {
+                calls += 6;
+                accepted[version as usize & 7] += 1;
+                normalised_n += normalised as u64;
+                with_mac += mac as u64;
+                fields_n[fields.min(4)] += 1;
+                // non-trivial: an accepted datagram with at least one field or a MAC; distinct by
+                // (base, length of the normal-form encoding B2, number of fields, MAC present)
+                if fields > 0 || mac {
+                    distinct.push(common::hash_of(&(base_key, normal_form, fields, mac)));
+                }
+            }
+            Rt::Violation { class, what } => {
+                calls += 2;
+                found.report(&class, format!("{what} [mutant of {}]", case.desc), common::hex(bytes));
+            }
+        }
+    };
+    if case.swept {
+        c23::sweep(&case.built, pats, &mut body);
+    } else {
+        body(&case.built.bytes, Mutation::None);
+    }
+    st.evals += evals;
+    st.calls += calls;
+    st.rejected += rejected;
+    st.normalised += normalised_n;
+    st.with_mac += with_mac;
+    for i in 0..8 {
+        st.accepted[i] += accepted[i];
+    }
+    for i in 0..5 {
+        st.fields[i] += fields_n[i];
+    }
+    st.distinct.extend(distinct);
+}
+
+fn replay(ctx: &Ctx, trace: &str) -> String {
+    // trace: hex datagram
+    let Some(bytes) = common::unhex(trace) else {
+        return "unparsable trace".into();
+    };
+    let (mut b1, mut b2, mut b3) = (vec![0; BUF], vec![0; BUF], vec![0; BUF]);
+    let r = round_trip(&bytes, &mut b1, &mut b2, &mut b3);
+    if let Rt::Violation { class, what } = &r {
+        ctx.violation(class, what.clone(), trace);
+    }
+    format!("{r:?}")
+}
+
+#[test]
+fn check() {
+    let ctx = Ctx::new("C24");
+    if let Some(t) = common::replay_trace() {
+        let a = replay(&ctx, &t);
+        let b = replay(&ctx, &t);
+        common::report_replay("C24", &a, &b, ctx.violation_count() > 0);
+        return;
+    }
+    let env = Env::new();
+    let plan = Plan::new(ctx.quick(), &env);
+    let pats = c23::patterns(ctx.quick());
+    ctx.rule(&format!(
+        "{} Every datagram is decoded with NoCipher; every accepted one goes through dec/enc/dec/enc/dec/enc and must re-encode \
+         without error or panic, re-decode, and be stable (packet and bytes) after the first re-encoding. distinct & non-trivial = \
+         distinct (base datagram, length of the normal-form encoding B2, number of fields, MAC present) tuples of accepted datagrams that carry at least one extension field or a MAC. [{}]",
+        c23::RULE_GRAMMAR,
+        plan.describe()
+    ));
+    ctx.assume("'accepts (without keys)' = NtpPacket::deserialize(x, &NoCipher) returns Ok; Err(DecryptError(packet)) is a rejection");
+    ctx.assume("the encoder gets a 32 KiB buffer: running out of buffer space is not the error the statement is about");
+    ctx.assume("release profile as shipped (debug assertions off)");
+    let found = c23::Findings::new();
+    ctx.set("harness_self_test_failures", env.self_test.len() as u64);
+    if !env.self_test.is_empty() {
+        ctx.note("harness_self_test", &env.self_test.join("; "));
+    }
+    let mut completed = 0;
+    for s in 0..plan.stages.len() {
+        if s > 0 && ctx.over_budget() {
+            ctx.cap_hit(&format!("stage {s} ({}) not started; stages < {s} complete", plan.stages[s].label));
+            break;
+        }
+        let total = plan.stage_total(s);
+        ctx.add(&format!("stage{s}_bases"), total);
+        let chunk = if plan.stages[s].blocks.iter().any(|b| b.swept) { 1 } else { 64 };
+        common::par_for_with(
+            total,
+            chunk,
+            || Local::new(&ctx),
+            |st, i| {
+                let case = plan.build(&env, s, i);
+                if i % 9973 == 1 {
+                    ctx.sample(format!("stage {s} base {i}: {} ({} bytes{})", case.desc, case.built.bytes.len(), if case.swept { ", swept" } else { "" }));
+                }
+                run_case(&found, st, s, i, &case, &pats);
+            },
+        );
+        completed = s + 1;
+    }
+    found.flush(&ctx);
+    ctx.set("stages_completed", completed as u64);
+    ctx.set("states", ctx.get("base_datagrams"));
+    ctx.set("accepted_inputs", ctx.get("accepted_v3") + ctx.get("accepted_v4") + ctx.get("accepted_v5"));
+    ctx.exhaustive(completed == plan.stages.len());
+    ctx.finish();
+}
